@@ -472,11 +472,12 @@ def objects(tier):
             ('pop', [U('gaussian_nc')], False),
             ('pop', [U('gaussian'), U('pooled')], False),
             ('pop', [U('pooled'), U('lognormal_nc')], False),
+            ('pop', [U('gaussian', 1, 1)], True),
             ('mech', 3),
             ('ll', ['Gaussian']), ('ll', ['LogNormal'])]
     if not q:
         out += [('pop', [U('gaussian', 2)], True),
-                ('pop', [U('gaussian', 1, 1)], True),
+                ('pop', [U('lognormal_nc', 1, 1)], False),
                 ('pop', [U('hetero'), U('gaussian')], False),
                 ('pop', [U('lognormal', 1, 1), U('pooled')], False),
                 ('mech', 4),
